@@ -41,6 +41,7 @@ THEOREMS = [
 REFUTED = ['C03_alias_shadows_module_refuted', 'C03_alias_shadows_std_refuted',
            'C03_alias_lookups_differ_refuted', 'C03_unqualified_text_depends_on_session']
 IMPL = os.path.join(lib.VERIF, 'harness', 'impl', 'c03_impl.py')
+STDLIB_MODULES = {'schema', 'sys', 'cfg', 'cal', 'math', 'ext', 'fts', 'pg', 'enc', 'net'}
 
 # ---------------------------------------------------------------- stream A: name resolution
 
@@ -377,7 +378,9 @@ def abstract_lines(case, r, hm):
     lines = []
     multi_firsts = {m.split('::')[0] for m in {split(n)[0] for n, _, _ in ents} if '::' in m}
     for ses in case['sessions']:
-        if any(k is not None and k in multi_firsts for k, _ in ses):
+        if any(k is not None and (k in multi_firsts or k in STDLIB_MODULES) for k, _ in ses):
+            # alias named like a standard-library module other than std (implicit references into
+            # schema::, cfg:: ... are not visible in the text), or
             # alias on the first component of a NESTED module: the real code resolves type shells with
             # edb/schema/utils.py::resolve_name, whose fallback after a failed lookup (whole-module alias
             # lookup) is not part of the model's replay -> no prediction for this session
